@@ -30,6 +30,7 @@ pub fn table_opts(tier: Tier) -> GenOpts {
         strata: [3, 5, 1, 1],
         precedence: true,
         avoid_insert: false,
+        pad_tokens: true,
     }
 }
 
